@@ -1692,7 +1692,7 @@ class _rrulestr(object):
                 line = lines[i].rstrip()
                 if not line:
                     del lines[i]
-                elif i > 0 and line[0] == " ":
+                elif i > 0 and line[0] in " \t":
                     lines[i-1] += line[1:]
                     del lines[i]
                 else:
